@@ -157,12 +157,10 @@ Definition cbad (V : ver) (t : ty) : bool :=
   (match V with V1 => has_opt_member t | V2 => false end).
 Definition common (V : ver) (t : ty) : bool := wf_ty t && negb (ty_any (cbad V) t).
 
-(* classes of differences recorded for C10 (0 = none):
-   1 char8 >= 0x80 written as UTF-8   2 wide string format   3 XCDR1 optional member origin
-   4 XCDR1 float128: bytes agree, but the implementation cannot read them back (C09 class 2) *)
+(* classes of differences recorded for C10 (0 = none).  Classes 1 (char8 >= 0x80 written as
+   UTF-8) and 4 (XCDR1 float128 not read back) were repaired in /repo (c6ffb24, 0b5427b); the
+   remaining numbers are kept:   2 wide string format   3 XCDR1 optional member origin *)
 Definition c10_class (v : ver) (t : ty) (x : val) : N :=
-  if val_nonascii_char x then 1%N
-  else if ty_any is_wstr t then 2%N
+  if ty_any is_wstr t then 2%N
   else if (match v with V1 => true | V2 => false end) && ty_any has_opt_member t then 3%N
-  else if (match v with V1 => true | V2 => false end) && ty_any is_f128 t then 4%N
   else 0%N.
